@@ -366,10 +366,10 @@ var (
 	textHeader  = regexp.MustCompile(`^\[([A-Z]+)\]\[(\d{4}-\d{2}-\d{2}T\d{2}:\d{2}:\d{2}\.\d{3})\]\[([^\]]*)\] ([a-z0-9_]+)\|\|`)
 )
 
-// encEvent builds the event of a case. With context fields it also returns a "parent" event that is
-// formatted first: its context fields are a shorter prefix of the SAME backing array (a child context
-// built as append(parentFields, extra)), so that a layout that writes into the spare capacity of the
-// slices it is given corrupts the event under test.
+// encEvent builds the event of a case. It also returns a "parent" event that is formatted first: its
+// context fields and its own fields are shorter prefixes of the SAME backing arrays (a child context
+// built as append(parentFields, extra); a caller logging fields[:n-1] and then fields[:n]), so that
+// a layout that writes into the spare capacity of the slices it is given corrupts the event under test.
 func encEvent(c layoutCase) (*log.Event, []string, []rv, *log.Event) {
 	e := &log.Event{Level: log.WarnLevel, Time: encTime, File: "dir/file.go", Line: 42, Tag: "_enc_tag"}
 	var keys []string
@@ -384,6 +384,8 @@ func encEvent(c layoutCase) (*log.Event, []string, []rv, *log.Event) {
 		keys = append(keys, "trace", "span")
 		vals = append(vals, str("t\"1"), num("9"))
 	}
+	// the call's fields likewise live in a longer backing array (a caller passing fields[:n]...)
+	e.Fields = make([]log.Field, 0, len(c.Fields)+4)
 	for _, i := range c.Fields {
 		fc := encAlphabet[i]
 		e.Fields = append(e.Fields, fc.f)
@@ -391,9 +393,14 @@ func encEvent(c layoutCase) (*log.Event, []string, []rv, *log.Event) {
 		vals = append(vals, fc.vals...)
 	}
 	var parent *log.Event
-	if c.Ctx&2 != 0 {
+	if c.Ctx&2 != 0 || len(e.Fields) > 0 {
 		p := *e
-		p.CtxFields = e.CtxFields[:1]
+		if c.Ctx&2 != 0 {
+			p.CtxFields = e.CtxFields[:1]
+		}
+		if len(e.Fields) > 0 {
+			p.Fields = e.Fields[:len(e.Fields)-1]
+		}
 		parent = &p
 	}
 	return e, keys, vals, parent
